@@ -185,5 +185,6 @@ pub fn stats_json(s: &Stats) -> Value {
         "states_with_two_or_more_handles": s.two_handle_states,
         "states_at_zero_free_clusters": s.full_states,
         "wall_s": s.wall_s,
+        "alphabet_entries_never_enabled": s.never_executed,
     })
 }
